@@ -39,6 +39,9 @@ pub struct BbCase {
 	pub initial: BTreeMap<String, String>,
 	pub token_len: usize,
 	pub unknown_challenge: bool,
+	/// a second certificate on a second account with this key type, in the same daemon
+	#[serde(default)]
+	pub second_account_key: Option<String>,
 }
 
 fn id_set() -> impl Strategy<Value = Vec<IdGen>> {
@@ -82,15 +85,16 @@ fn bb_strategy() -> impl Strategy<Value = BbCase> {
 		16usize..=64,
 		any::<bool>(),
 		any::<bool>(),
+		proptest::option::weighted(0.4, gen::key_type_strategy()),
 	)
-		.prop_map(|(ids, picks, account_key, sh, offer, st, token_len, unknown_challenge, reverse)| {
+		.prop_map(|(ids, picks, account_key, sh, offer, st, token_len, unknown_challenge, reverse, second_account_key)| {
 			let mut ids = ids;
 			if reverse {
 				ids.reverse();
 			}
 			let challenges: Vec<String> = ids.iter().enumerate().map(|(i, id)| super::c01::challenge_for(id, picks[i % picks.len()])).collect();
 			let initial = ids.iter().enumerate().filter(|(i, _)| st[i % st.len()] != "pending").map(|(i, id)| (id.expected.clone(), st[i % st.len()].to_string())).collect();
-			BbCase { ids, challenges, account_key, authz_shuffle: sh, offer: offer.iter().map(|s| s.to_string()).collect(), initial, token_len, unknown_challenge }
+			BbCase { ids, challenges, account_key, authz_shuffle: sh, offer: offer.iter().map(|s| s.to_string()).collect(), initial, token_len, unknown_challenge, second_account_key }
 		})
 }
 
@@ -124,7 +128,7 @@ pub fn id_matches(id: &IdGen, text: &str) -> bool {
 }
 
 fn hooks_for<'a>(recs: &'a [HookRecord], id: &IdGen) -> Vec<&'a HookRecord> {
-	recs.iter().filter(|r| r.hook_id.starts_with("challenge-") && r.arg("identifier").map(|t| id_matches(id, t)).unwrap_or(false)).collect()
+	recs.iter().filter(|r| r.hook_id.starts_with("challenge-") && r.hook_id.ends_with(":c1") && r.arg("identifier").map(|t| id_matches(id, t)).unwrap_or(false)).collect()
 }
 
 fn exec_bb_in(case: &BbCase, acmed: &std::path::Path, dir: &std::path::Path) -> Outcome {
@@ -143,36 +147,68 @@ fn exec_bb_in(case: &BbCase, acmed: &std::path::Path, dir: &std::path::Path) -> 
 		extra_unknown_challenge: case.unknown_challenge,
 		..CaPlan::default()
 	};
-	let ca = match MockCa::start(plan, vec![(bb::ident_key(&expected_ids), "c1".to_string())]) {
+	let ca = match MockCa::start(plan, vec![(bb::ident_key(&expected_ids), "c1".to_string()), (bb::ident_key(&[("dns".to_string(), "second.c05.test".to_string())]), "c2".to_string())]) {
 		Ok(c) => c,
 		Err(e) => return Outcome::Infra(e),
 	};
+	let mut accounts = vec![json!({"name": "a1", "key_type": case.account_key, "contacts": [{"mailto": "a@c05.test"}], "env": {bb::ACCT_ENV: "a1"}})];
+	let mut certs = vec![json!({"name": "c1", "account": "a1", "endpoint": "e1", "key_type": "ecdsa-p256",
+			"hooks": bb::std_hook_names(), "env": {bb::CERT_ENV: "c1"},
+			"identifiers": case.ids.iter().zip(case.challenges.iter()).map(|(i, c)| if i.ty == "dns" { json!({"dns": i.config, "challenge": c}) } else { json!({"ip": i.config, "challenge": c}) }).collect::<Vec<_>>()})];
+	if let Some(k2) = &case.second_account_key {
+		accounts.push(json!({"name": "a2", "key_type": k2, "contacts": [{"mailto": "b@c05.test"}], "env": {bb::ACCT_ENV: "a2"}}));
+		certs.push(json!({"name": "c2", "account": "a2", "endpoint": "e1", "key_type": "ecdsa-p256", "hooks": bb::std_hook_names(), "env": {bb::CERT_ENV: "c2"},
+			"identifiers": [{"dns": "second.c05.test", "challenge": "http-01"}]}));
+	}
+	let n_certs = certs.len();
 	let cfg = json!({
 		"global": lay.global(),
 		"endpoint": [{"name": "e1", "url": ca.directory_url(), "tos_agreed": true}],
-		"account": [{"name": "a1", "key_type": case.account_key, "contacts": [{"mailto": "a@c05.test"}], "env": {bb::ACCT_ENV: "a1"}}],
+		"account": accounts,
 		"hook": bb::std_hooks(&coll.sock),
-		"certificate": [{"name": "c1", "account": "a1", "endpoint": "e1", "key_type": "ecdsa-p256",
-			"hooks": bb::std_hook_names(), "env": {bb::CERT_ENV: "c1"},
-			"identifiers": case.ids.iter().zip(case.challenges.iter()).map(|(i, c)| if i.ty == "dns" { json!({"dns": i.config, "challenge": c}) } else { json!({"ip": i.config, "challenge": c}) }).collect::<Vec<_>>()}],
+		"certificate": certs,
 	});
 	let cfg_path = bb::write_config(dir, "acmed.toml", &cfg);
 	let mut daemon = match Daemon::spawn(&bb::daemon_opts(acmed, dir, &cfg_path, "run")) {
 		Ok(d) => d,
 		Err(e) => return Outcome::Infra(e),
 	};
-	let end = bb::wait_total_postops(&coll, &mut daemon, 1, Duration::from_secs(90));
-	let run = bb::finish_run(&coll, daemon, end);
+	coll.hold_when(Box::new(|r, _| bb::is_post(r)));
+	let ok = coll.wait_until(&|r| r.iter().filter(|x| bb::is_post(x)).count() >= n_certs, Duration::from_secs(90), &mut || daemon.state() != crate::daemon::ProcState::Alive);
+	let run = bb::finish_run(&coll, daemon, if ok { WaitEnd::Reached } else { WaitEnd::Timeout });
 	let snap = ca.snapshot();
 	let ctx_txt = || format!("\nidentifiers {:?} challenges {:?} offer {:?} initial {:?}\nlog tail:\n{}", case.ids.iter().map(|i| &i.config).collect::<Vec<_>>(), case.challenges, case.offer, case.initial, run.stderr_tail);
 	if run.end != WaitEnd::Reached {
 		return Outcome::fail("C05:no-attempt-result", format!("{:?}{}", run.end, ctx_txt()));
 	}
 	let post = bb::post_of(&run.records, "c1")[0];
-	let Some(order) = snap.orders.first() else {
+	let Some(order) = snap.orders.iter().find(|o| o.cert.as_deref() != Some("c2")) else {
 		return Outcome::fail("C05:no-order", format!("no order reached the CA: {:?}{}", post.arg("status"), ctx_txt()));
 	};
-	let Some(acct) = snap.accounts.first() else { return Outcome::Infra("no account".into()) };
+	let Some(acct) = snap.accounts.get(order.account) else { return Outcome::Infra("no account".into()) };
+	// the second certificate proves possession with ITS account key
+	if case.second_account_key.is_some() {
+		let Some(o2) = snap.orders.iter().find(|o| o.cert.as_deref() == Some("c2")) else {
+			return Outcome::fail("C05:no-order", format!("no order for the second certificate{}", ctx_txt()));
+		};
+		let a2 = &snap.accounts[o2.account];
+		if let Some(ch) = o2.authz.first().and_then(|a| a.challenges.iter().find(|c| c.ty == "http-01")) {
+			let (proof, _, file_name) = match expected_proof("http-01", &ch.token, &a2.jwk) {
+				Ok(x) => x,
+				Err(e) => return Outcome::Infra(e),
+			};
+			for id in ["challenge-http-01:c2", "challenge-http-01-clean:c2"] {
+				match run.records.iter().find(|r| r.hook_id == id) {
+					None => return Outcome::fail("C05:hook-sequence", format!("hook {id} did not run{}", ctx_txt())),
+					Some(r) => {
+						if r.arg("proof") != Some(proof.as_str()) || r.arg("file_name") != Some(file_name.as_str()) {
+							return Outcome::fail("C05:hook-variable-proof", format!("hook {id} (second account, key {:?}): proof {:?}, expected {proof:?}{}", case.second_account_key, r.arg("proof"), ctx_txt()));
+						}
+					}
+				}
+			}
+		}
+	}
 	let mut expect_success = true;
 	let mut stopped = false;
 	let mut mixed_types = std::collections::BTreeSet::new();
@@ -240,7 +276,7 @@ fn exec_bb_in(case: &BbCase, acmed: &std::path::Path, dir: &std::path::Path) -> 
 		}
 	}
 	// no challenge hook at all for identifiers outside the list
-	for r in run.records.iter().filter(|r| r.hook_id.starts_with("challenge-")) {
+	for r in run.records.iter().filter(|r| r.hook_id.starts_with("challenge-") && r.hook_id.ends_with(":c1")) {
 		if !case.ids.iter().any(|i| r.arg("identifier").map(|t| id_matches(i, t)).unwrap_or(false)) {
 			return Outcome::fail("C05:hook-variable-identifier", format!("hook {} ran with identifier {:?}, which is no configured entry{}", r.hook_id, r.arg("identifier"), ctx_txt()));
 		}
@@ -254,6 +290,9 @@ fn exec_bb_in(case: &BbCase, acmed: &std::path::Path, dir: &std::path::Path) -> 
 	let mut classes = vec![format!("account_key={}", case.account_key), format!("n_ids={}", case.ids.len()), format!("expect_success={expect_success}")];
 	if has_pair {
 		classes.push("name+wildcard".into());
+	}
+	if case.second_account_key.is_some() {
+		classes.push("two-accounts".into());
 	}
 	if case.ids.iter().any(|i| i.ty == "ip") {
 		classes.push("ip".into());
@@ -307,39 +346,51 @@ fn exec_pr(case: &PrCase) -> Outcome {
 		Ok(p) => p,
 		Err(e) => return Outcome::Infra(e),
 	};
-	let pem = match &case.key_pem {
-		Some(p) => p.clone(),
-		None => match pooled_key(&case.key_type, case.items.len() + case.items[0].1.len()) {
-			Ok(p) => p,
+	// several account keys are used inside ONE daemon process (a proof must depend on the key it is given)
+	let mut pems: Vec<String> = vec![];
+	match &case.key_pem {
+		Some(p) => pems.extend(p.split("\n\n").map(|s| s.to_string())),
+		None => {
+			for j in 0..3 {
+				let kt = if j == 0 { case.key_type.as_str() } else { ["ecdsa-p256", "ed25519", "ecdsa-p384"][(j + case.items.len()) % 3] };
+				match pooled_key(kt, case.items[0].1.len() + 7 * j) {
+					Ok(p) => pems.push(p),
+					Err(e) => return Outcome::Infra(e),
+				}
+			}
+		}
+	}
+	let mut jwks = vec![];
+	for pem in pems.iter() {
+		let k = match openssl::pkey::PKey::private_key_from_pem(pem.as_bytes()) {
+			Ok(k) => k,
+			Err(e) => return Outcome::Infra(e.to_string()),
+		};
+		let spki = k.public_key_to_der().unwrap();
+		let members = match jwk::required_members_from_spki(&spki) {
+			Ok(m) => m,
 			Err(e) => return Outcome::Infra(e),
-		},
-	};
-	let k = match openssl::pkey::PKey::private_key_from_pem(pem.as_bytes()) {
-		Ok(k) => k,
-		Err(e) => return Outcome::Infra(e.to_string()),
-	};
-	let spki = k.public_key_to_der().unwrap();
-	let members = match jwk::required_members_from_spki(&spki) {
-		Ok(m) => m,
-		Err(e) => return Outcome::Infra(e),
-	};
-	let acct_jwk = Value::Object(members.iter().map(|(k, v)| (k.clone(), Value::String(v.clone()))).collect());
+		};
+		jwks.push(Value::Object(members.iter().map(|(k, v)| (k.clone(), Value::String(v.clone()))).collect()));
+	}
 	let mut probe = match Probe::spawn(&acmed) {
 		Ok(p) => p,
 		Err(e) => return Outcome::Infra(e),
 	};
 	let repro = |sig: String, detail: String| {
 		let mut c = case.clone();
-		c.key_pem = Some(pem.clone());
+		c.key_pem = Some(pems.join("\n\n"));
 		Outcome::Fail { signature: sig, detail, repro: Some(serde_json::to_value(&c).unwrap()) }
 	};
-	for (ty, token) in case.items.iter() {
+	for (n, (ty, token)) in case.items.iter().enumerate() {
+		let pem = &pems[n % pems.len()];
+		let acct_jwk = &jwks[n % jwks.len()];
 		let ch = json!({"type": ty, "url": "https://ca.example/chall/1", "token": token, "status": "pending"}).to_string();
 		let r = match probe.call(&json!({"op": "proof", "challenge": ch, "key_pem": pem})) {
 			Ok(v) => v,
 			Err(e) => return repro("C05:proof-crash".into(), format!("{ty} token {token:?}: {e}")),
 		};
-		let (proof, raw, file_name) = expected_proof(ty, token, &acct_jwk).unwrap();
+		let (proof, raw, file_name) = expected_proof(ty, token, acct_jwk).unwrap();
 		let got = (r["proof"].as_str().unwrap_or("").to_string(), r["raw_proof"].as_str().unwrap_or("").to_string(), r["file_name"].as_str().unwrap_or("").to_string());
 		if got != (proof.clone(), raw.clone(), file_name.clone()) {
 			return repro(format!("C05:proof-{ty}"), format!("{ty} token {token:?} key {}: daemon computed {got:?}, RFC 8555/8737 prescribe {:?}", case.key_type, (proof, raw, file_name)));
